@@ -690,6 +690,10 @@ func WriteRunningEventFilter(w db.KeyValueWriter, filter *RunningEventFilter) er
 	return w.Put(db.RunningEventFilter.Key(), enc)
 }
 
+func DeleteRunningEventFilter(w db.KeyValueWriter) error {
+	return w.Delete(db.RunningEventFilter.Key())
+}
+
 func GetClassCasmHashMetadata(
 	r db.KeyValueReader,
 	classHash *felt.SierraClassHash,
